@@ -220,13 +220,10 @@ def build_rhythm(spec):
     from wheatley.rhythm import RegressionRhythm, WaitForUserRhythm
     if spec["kind"] == "scripted":
         return make_scripted_rhythm(spec["durs"])
-    mx = spec.get("max", 15)
-    reg = RegressionRhythm(spec["inertia"], peal_speed=spec["peal_speed"], handstroke_gap=spec["gap"],
-                           min_bells_in_dataset=min(4, mx), max_bells_in_dataset=mx,
-                           initial_inertia=spec.get("initial_inertia", 0))
-    if spec["kind"] == "wait":
-        return WaitForUserRhythm(reg)
-    return reg
+    # through the product's own factory (wheatley/main.py), exactly as console_main/server_main call it
+    from wheatley.main import create_rhythm
+    return create_rhythm(spec["peal_speed"], spec["inertia"], spec.get("max", 15), spec["gap"],
+                         spec["kind"] == "wait", spec.get("initial_inertia", 0))
 
 
 class Injector:
